@@ -24,6 +24,7 @@ wf_all = partial(e2.rule_wellfounded, programs=("main", "nonhermitian"))
 tv_shipped = partial(e9.rule_translation, which=("main", "nonhermitian"))
 diag_solver_real = partial(e7b.rule_diagonal_solver, complex_energies=False)  # Hermitian H_0: real energies
 start_data_shipped = partial(e9.rule_start_data, all_programs=False)
+memo_key_nof = partial(e4.rule_memo_key, modules=("number_ordered_form", "second_quantization"))  # C08 is about that arithmetic only
 
 # ideal DSL semantics tied to the code: shared by the algorithm-level properties
 CORE = [e1b.rule_projection_pairs, e1b.rule_scope_flags, e2c.rule_product_by_order, e2c.rule_adjoint_fill, e2c.rule_cauchy_wiring,
@@ -31,8 +32,13 @@ CORE = [e1b.rule_projection_pairs, e1b.rule_scope_flags, e2c.rule_product_by_ord
         # what the series H *is*: input normalisation of symbolic / list / dict Hamiltonians (Taylor coefficients, order keys)
         e2b.rule_taylor, e2b.rule_key_normalisation,
         # `every Hamiltonian accepted by block_diagonalize` includes implicit mode: the exact (direct) implicit solver and the
-        # projector it works with are part of what makes U†HU = H_tilde there (KPM is approximate and belongs to C06 / C16 only)
-        e7.rule_direct_solver, e7.rule_greens_function, e6.rule_projector, e6.rule_projector_call_sites, e8.rule_implicit_wiring]
+        # projector it works with are part of what makes U†HU = H_tilde there.  The KPM solver is approximate (its accuracy and
+        # convergence belong to C06 / C16 only), but how it is WIRED -- which vectors are projected out, which part is solved
+        # exactly -- is structural: a wiring fault is an O(1) error in V, not an approximation error
+        e7.rule_direct_solver, e7.rule_greens_function, e6.rule_projector, e6.rule_projector_call_sites, e8.rule_implicit_wiring,
+        e7b.rule_kpm_wiring,
+        # a table of computed values kept between element evaluations is sound only if its key pins what the value reads
+        e4.rule_memo_key]
 
 PROPS: dict[str, dict] = {}
 
@@ -60,8 +66,10 @@ prop(
 )
 
 prop(
-    "C02", level="proof", trusted_base=TB_E1, selftest=["algorithms", "series"],
-    rules=[main_e1, wf_main, diag_solver_real, *CORE],
+    "C02", level="proof", trusted_base=TB_E1, selftest=["algorithms", "series", "number_ordered_form"],
+    # `U† is the adjoint of U`, `H_tilde is Hermitian` are statements about what Dagger does to the values: for operator-valued
+    # (second-quantised) problems that is NumberOrderedForm's adjoint / sum / negation structure
+    rules=[main_e1, wf_main, diag_solver_real, *CORE, e10.rule_linear_structure],
     explanation=(
         "Unitarity (1+U'†)(1+U') = (1+U')(1+U'†) = 1, adj(U) = U†, Hermiticity of U†HU and of every series/product "
         "carrying a hermitian/antihermitian marker are obligations of the E1 certificate of `main`; the Hermitian "
@@ -144,7 +152,7 @@ prop(
 prop(
     "C08", level="other", selftest=["number_ordered_form"],
     rules=[e10.rule_operator_order, e10.rule_fermion_crossing, e10.rule_shift_table, e10.rule_linear_structure,
-           e4.rule_loop_carried_state, e4.rule_memo_key],
+           e4.rule_loop_carried_state, memo_key_nof],
     explanation=(
         "Necessary conditions of faithfulness decided from number_ordered_form.py: (i) the order in which __mul__ "
         "applies the right operand's creation / annihilation operators equals the order as_expr denotes (extracted and "
@@ -186,7 +194,7 @@ prop(
 
 prop(
     "C11", level="other", selftest=["series"],
-    rules=[e3.rule_typestate, e3.rule_memo_owner, e4.rule_closure_state, e7b.rule_shared_eigenvalue_check, e3.rule_exceptions_propagate],
+    rules=[e3.rule_typestate, e3.rule_memo_owner, e4.rule_closure_state, e4.rule_memo_key, e7b.rule_shared_eigenvalue_check, e3.rule_exceptions_propagate],
     explanation=(
         "Typestate of the in-flight marker on the control-flow graph (with exceptional edges) of the one function that "
         "owns it: from the store of PENDING every path to a normal or exceptional exit passes a store of the result or "
